@@ -94,11 +94,22 @@ class Peer:
                         continue
             while b"\r\n\r\n" in buf and not pending and not s.closed:
                 head, _, rest = bytes(buf).partition(b"\r\n\r\n")
-                del buf[:len(head) + 4]
+                clen = 0
+                for hl in head.split(b"\r\n")[1:]:
+                    if hl.lower().startswith(b"content-length:"):
+                        try:
+                            clen = int(hl.split(b":", 1)[1])
+                        except ValueError:
+                            clen = 0
+                if len(rest) < clen:
+                    break
+                del buf[:len(head) + 4 + clen]
                 line = head.split(b"\r\n")[0].decode("latin-1")
                 parts = line.split(" ")
-                path = parts[1] if len(parts) > 1 else "?"
+                target = parts[1] if len(parts) > 1 else "?"
+                path = target.split("?")[0]
                 w.seen.append((self.port, path))
+                w.wire.append((parts[0], target, bytes(rest[:clen])))
                 self.respond(c, path)
 
     def respond(self, c, path):
@@ -150,7 +161,7 @@ class World:
 def harness(job, ch):
     _, tls, nreq, reconnectable = job[:4]
     w = World()
-    w.tls, w.viol, w.seen, w.used = tls, [], [], set()
+    w.tls, w.viol, w.seen, w.used, w.wire = tls, [], [], set(), []
     behs = {}
     codes = {}
     allowed = [b for b in BEHAVIOURS if (b != "redirect-http" or tls)]
@@ -177,8 +188,13 @@ def harness(job, ch):
         else:
             client = http.Client(**kw)
         client.reopen()
+        # request i: even = POST with a body through Client.request(); odd = a raw request dict without body
+        # (the documented alternative), both with their own query argument
         for i in range(nreq):
-            client.request(method="GET", path="/r%d" % i, reply="tag%d" % i)
+            if i % 2 == 0:
+                client.request(method="POST", path="/r%d" % i, qargs={"t": str(i)}, body=b"B%d" % i, reply="tag%d" % i)
+            else:
+                client.requests.append(dict(method="POST", path="/r%d" % i, qargs={"t": str(i)}, reply="tag%d" % i))
         rounds = 0
         for rounds in range(40):
             tymist.tick()
@@ -232,6 +248,19 @@ def harness(job, ch):
                     viol.append(("https-to-http-followed", "TLS client followed a redirect to http:// (request %d)" % i))
                 if i < len(client.responses) and not client.responses[i].get("errored") and tags[i:i + 1] == [want[i]]:
                     viol.append(("https-to-http-not-reported", "refused redirect of request %d not reported as an error: %r" % (i, {k: client.responses[i].get(k) for k in ("status", "errored", "error")})))
+        # what went over the wire: original requests carry exactly their own query and body; a followed redirect
+        # goes to exactly the Location (nothing of the original query or body leaks into it unless the code says so)
+        for meth, target, body in w.wire:
+            path, _, query = target.partition("?")
+            if path.startswith("/r") and path[2:].isdigit():
+                i = int(path[2:])
+                wantq, wantb = "t=%d" % i, (b"B%d" % i if i % 2 == 0 else b"")
+                if query != wantq or body != wantb or meth != "POST":
+                    viol.append(("request-on-wire:%s" % ("body" if body != wantb else "query" if query != wantq else "method"),
+                                 "request %d went out as %s %s body %r, expected POST %s?%s body %r" % (i, meth, target, body, path, wantq, wantb)))
+            elif path.startswith("/moved"):
+                if query:
+                    viol.append(("redirected-request-query", "redirect to %s was requested as %s (query not in the Location)" % (path, target)))
         # liveness
         # after a redirect to another host the client runs on a fresh connector without the caller's reconnect
         # settings; the statement promises no progress through a connection the server closed
